@@ -605,6 +605,35 @@ theorem run_terminates_time_conditions (hR : 0 < scfg.rule) (w0 : Wntr.Sched.St 
       (enter (W := Wntr.Sched.St × A) (RN := RN) (RL := RL) cfg w0 simTime prevTime).prevTime)
   exact ⟨a, b, c, f, g, h⟩
 
+/-- the general form: any presolve pass `P` over the scheduler state that lands inside the step whenever C04's invariant
+holds (`Lands`) gives a run that terminates with a well-formed index -- every solver, every post-solve behaviour -/
+theorem run_terminates_of_lands (P : Bool → Wntr.Sched.St → Wntr.Sched.St)
+    (hP : ∀ first s, Wntr.Sched.Inv scfg s → Lands scfg s (P first s))
+    (w0 : Wntr.Sched.St × A) {simTime prevTime : Int} (hS : Start cfg simTime prevTime)
+    (hI : Wntr.Sched.Inv scfg { w0.1 with simTime := simTime, prevTime := if simTime = 0 then -1 else prevTime }) :
+    let F := runSim (schedWorldP P solveF postF nodeRowF linkRowF) cfg w0 simTime prevTime
+    F.halt ≠ none ∧ F.times.Pairwise (· < ·) ∧ F.times = F.accepted.filter (reportNow cfg) ∧
+    F.halt ≠ some .raiseAlreadySolved := by
+  intro F
+  have hJ0 : (enter (RN := RN) (RL := RL) cfg w0 simTime prevTime).halt ≠ none ∨ J scfg (enter (RN := RN) (RL := RL) cfg w0 simTime prevTime) := by
+    have hJ : J scfg (init (RN := RN) (RL := RL) w0 simTime prevTime) := by
+      by_cases h0 : simTime = 0
+      · subst h0
+        simp only [if_true] at hI
+        exact ⟨by simp [init], hI.rl, fun _ => ⟨by simpa [init] using hI.hi, by simpa [init] using hI.lo⟩, fun h => by simp [init] at h⟩
+      · simp only [h0, if_false] at hI
+        exact ⟨by simpa [init, h0] using hI.lt, hI.rl, fun _ => ⟨by simpa [init, h0] using hI.hi, by simpa [init, h0] using hI.lo⟩,
+          fun h => by simp [init] at h⟩
+    rcases enter_cases (RN := RN) (RL := RL) cfg w0 simTime prevTime with e | ⟨e, _⟩
+    · rw [e]; exact Or.inr hJ
+    · rw [e]; exact Or.inl (by simp)
+  have hC := sched_contract scfg P solveF postF nodeRowF linkRowF cfg hP hS.hyd_pos _ hJ0
+  obtain ⟨a, _, _⟩ := run_terminates (schedWorldP P solveF postF nodeRowF linkRowF) cfg w0 hS hC
+  obtain ⟨b, _, c, _, _, _, _, h⟩ := times_strictly_increasing_on_grid (schedWorldP P solveF postF nodeRowF linkRowF) cfg w0 hS hC
+    (fuel cfg (enter (W := Wntr.Sched.St × A) (RN := RN) (RL := RL) cfg w0 simTime prevTime).simTime
+      (enter (W := Wntr.Sched.St × A) (RN := RN) (RL := RL) cfg w0 simTime prevTime).prevTime)
+  exact ⟨a, b, c, h⟩
+
 /-! #### the presolve pass as the GENERATED scheduler program, and as the C04 loop over any due list -/
 
 /-- the presolve pass regenerated from `_compute_next_timestep_and_run_presolve_controls_and_rules` (C04's translator:
@@ -622,13 +651,11 @@ theorem run_terminates_generated_scheduler (hR : 0 < scfg.rule) (w0 : Wntr.Sched
     let F := runSim (schedWorldP (generatedPresolve scfg) solveF postF nodeRowF linkRowF) cfg w0 simTime prevTime
     F.halt ≠ none ∧ F.times.Pairwise (· < ·) ∧ F.times = F.accepted.filter (reportNow cfg) ∧
     F.halt ≠ some .raiseAlreadySolved := by
-  have hP : generatedPresolve scfg = Wntr.Sched.presolve scfg := by
-    funext first s
-    exact Wntr.PresolveProg.generated_method_is_presolve scfg first s
-  rw [hP]
-  intro F
-  obtain ⟨a, b, c, _, _, h⟩ := run_terminates_time_conditions cfg scfg solveF postF nodeRowF linkRowF hR w0 hS hI
-  exact ⟨a, b, c, h⟩
+  refine run_terminates_of_lands cfg scfg solveF postF nodeRowF linkRowF (generatedPresolve scfg) (fun first s inv => ?_) w0 hS hI
+  have e : generatedPresolve scfg first s = Wntr.Sched.presolve scfg first s :=
+    Wntr.PresolveProg.generated_method_is_presolve scfg first s inv.lt
+  rw [e]
+  exact lands_presolve scfg hR first s inv
 
 /-- a due list built the way the code builds it -- stable sorts, first-step override -- from raw entries whose backtracks lie
 in `[0, cur − prev)` satisfies C04's `LoopCtx` -/
@@ -673,6 +700,77 @@ theorem run_terminates_time_and_tank_conditions (hR : 0 < scfg.rule)
   intro P F
   have hP : ∀ first s, Wntr.Sched.Inv scfg s → Lands scfg s (P first s) := fun first s inv =>
     lands_loop scfg _ s inv (loopCtx_of_bounds scfg hR (rawDue first s) first s.simTime s.prevTime inv.lt (hB first s inv.lt))
+  have hJ0 : (enter (RN := RN) (RL := RL) cfg w0 simTime prevTime).halt ≠ none ∨ J scfg (enter (RN := RN) (RL := RL) cfg w0 simTime prevTime) := by
+    have hJ : J scfg (init (RN := RN) (RL := RL) w0 simTime prevTime) := by
+      by_cases h0 : simTime = 0
+      · subst h0
+        simp only [if_true] at hI
+        exact ⟨by simp [init], hI.rl, fun _ => ⟨by simpa [init] using hI.hi, by simpa [init] using hI.lo⟩, fun h => by simp [init] at h⟩
+      · simp only [h0, if_false] at hI
+        exact ⟨by simpa [init, h0] using hI.lt, hI.rl, fun _ => ⟨by simpa [init, h0] using hI.hi, by simpa [init, h0] using hI.lo⟩,
+          fun h => by simp [init] at h⟩
+    rcases enter_cases (RN := RN) (RL := RL) cfg w0 simTime prevTime with e | ⟨e, _⟩
+    · rw [e]; exact Or.inr hJ
+    · rw [e]; exact Or.inl (by simp)
+  have hC := sched_contract scfg P solveF postF nodeRowF linkRowF cfg hP hS.hyd_pos _ hJ0
+  obtain ⟨a, _, _⟩ := run_terminates (schedWorldP P solveF postF nodeRowF linkRowF) cfg w0 hS hC
+  obtain ⟨b, _, c, _, _, _, _, h⟩ := times_strictly_increasing_on_grid (schedWorldP P solveF postF nodeRowF linkRowF) cfg w0 hS hC
+    (fuel cfg (enter (W := Wntr.Sched.St × A) (RN := RN) (RL := RL) cfg w0 simTime prevTime).simTime
+      (enter (W := Wntr.Sched.St × A) (RN := RN) (RL := RL) cfg w0 simTime prevTime).prevTime)
+  exact ⟨a, b, c, h⟩
+
+/-- the clamp fix 7d8c4ce1 put into the presolve pass: `min(max(b, 0), max(int(cur − prev) − 1, 0))` -/
+def clampBack (cur prev b : Int) : Int := min (max b 0) (max (cur - prev - 1) 0)
+
+theorem clampBack_bounds (cur prev b : Int) (h : prev < cur) : 0 ≤ clampBack cur prev b ∧ clampBack cur prev b < cur - prev := by
+  unfold clampBack; omega
+
+theorem clampBack_mono (cur prev : Int) {a b : Int} (h : a ≤ b) : clampBack cur prev a ≤ clampBack cur prev b := by
+  unfold clampBack; omega
+
+/-- the due list of the clamped pass satisfies C04's `LoopCtx` for EVERY raw list of (control, backtrack) pairs -/
+theorem loopCtx_clamped (hR : 0 < scfg.rule) (raw : List Wntr.Sched.Due) (first : Bool) (cur prev : Int) (hlt : prev < cur) :
+    Wntr.Sched.LoopCtx scfg
+      (if first then (Wntr.Sched.sortDue raw).map (fun d => { d with back := 0 })
+       else (Wntr.Sched.sortDue raw).map (fun d => { d with back := clampBack cur prev d.back })) cur prev := by
+  cases first with
+  | true =>
+    simp only [if_true]
+    refine ⟨hR, hlt, ?_, ?_, ?_⟩
+    · apply Wntr.Sched.pairwise_of_all
+      intro a ha b hb'
+      obtain ⟨a', _, rfl⟩ := List.mem_map.1 ha
+      obtain ⟨b', _, rfl⟩ := List.mem_map.1 hb'
+      simp
+    · intro d hd; obtain ⟨d', _, rfl⟩ := List.mem_map.1 hd; simp
+    · intro d hd; obtain ⟨d', _, rfl⟩ := List.mem_map.1 hd; simp only; omega
+  | false =>
+    simp only [Bool.false_eq_true, if_false]
+    refine ⟨hR, hlt, ?_, ?_, ?_⟩
+    · exact List.Pairwise.map _ (fun a b hab => clampBack_mono cur prev hab) (Wntr.Sched.sortDue_sorted raw)
+    · intro d hd; obtain ⟨d', _, rfl⟩ := List.mem_map.1 hd; exact (clampBack_bounds cur prev d'.back hlt).1
+    · intro d hd; obtain ⟨d', _, rfl⟩ := List.mem_map.1 hd; exact (clampBack_bounds cur prev d'.back hlt).2
+
+/-- **run_terminates_every_presolve_control** (the code since fix 7d8c4ce1): the presolve pass clamps every reported
+backtrack into the step, so WHATEVER the presolve controls report -- time conditions, tank-level conditions with their
+floating-point backtracks (the −1 and whole-step corners included), user-defined conditions -- the contract `prev < t' ≤ cur`
+holds and `run_sim` terminates with a well-formed index, for every solver and post-solve behaviour.  No hypothesis on the
+backtracks is left. -/
+theorem run_terminates_every_presolve_control (hR : 0 < scfg.rule)
+    (rawDue : Bool → Wntr.Sched.St → List Wntr.Sched.Due)
+    (w0 : Wntr.Sched.St × A) {simTime prevTime : Int} (hS : Start cfg simTime prevTime)
+    (hI : Wntr.Sched.Inv scfg { w0.1 with simTime := simTime, prevTime := if simTime = 0 then -1 else prevTime }) :
+    let due : Bool → Wntr.Sched.St → List Wntr.Sched.Due := fun first s =>
+      if first then (Wntr.Sched.sortDue (rawDue first s)).map (fun d => { d with back := 0 })
+      else (Wntr.Sched.sortDue (rawDue first s)).map (fun d => { d with back := clampBack s.simTime s.prevTime d.back })
+    let P : Bool → Wntr.Sched.St → Wntr.Sched.St := fun first s =>
+      Wntr.Sched.presolveLoop scfg s.vals (due first s) (Wntr.Sched.presolveFuel scfg (due first s) s) 0 s
+    let F := runSim (schedWorldP P solveF postF nodeRowF linkRowF) cfg w0 simTime prevTime
+    F.halt ≠ none ∧ F.times.Pairwise (· < ·) ∧ F.times = F.accepted.filter (reportNow cfg) ∧
+    F.halt ≠ some .raiseAlreadySolved := by
+  intro due P F
+  have hP : ∀ first s, Wntr.Sched.Inv scfg s → Lands scfg s (P first s) := fun first s inv =>
+    lands_loop scfg _ s inv (loopCtx_clamped scfg hR (rawDue first s) first s.simTime s.prevTime inv.lt)
   have hJ0 : (enter (RN := RN) (RL := RL) cfg w0 simTime prevTime).halt ≠ none ∨ J scfg (enter (RN := RN) (RL := RL) cfg w0 simTime prevTime) := by
     have hJ : J scfg (init (RN := RN) (RL := RL) w0 simTime prevTime) := by
       by_cases h0 : simTime = 0
